@@ -32,6 +32,12 @@ def run(name, seed):
         out["fit_transform"] = exc(e)
         return out
     out["fit_transform"] = zoo.canon(A)
+    if isinstance(A, np.ndarray) and A.ndim == 2 and A.dtype.kind == "f" and A.shape[1] > 1 and name in (
+            "WassersteinVectorizer", "SinkhornVectorizer", "ApproximateWassersteinVectorizer", "CountFeatureCompressionTransformer"):
+        # more components than the numerical rank: the surplus SVD directions are rounding noise, and the projection
+        # of NEW data on them is arbitrary (it differs between two fits of the same process) - not comparable
+        norms = np.sqrt((A ** 2).sum(axis=0))
+        out["degenerate_svd"] = bool(norms.min() < 1e-7 * max(norms.max(), 1e-300))
     out["n_train"], out["n_x2"] = zoo.nrows(A), len(c.X2) if not hasattr(c.X2, "shape") else int(c.X2.shape[0])
     out["rowwise"], out["exact"], out["rtol"] = c.rowwise, c.exact, c.rtol
     try:
